@@ -23,7 +23,7 @@ var c16Reviewed = map[string]string{
 	"types.(*Transaction).Hash/assert:atomic.Value.Load(&tx.hash)":      "the cache slot is written only by this function with a common.Hash",
 	"types.(*TokenTransaction).Hash/assert:atomic.Value.Load(&tx.hash)": "the cache slot is written only by this function with a common.Hash",
 	"types.transactionHash/assert:atomic.Value.Load(hashcache)":         "the cache slot is written only by this function with a common.Hash",
-	"libs/common.(*Hash).SetBytes/index:(32 - len(φ:b))":                  "b is truncated to at most HashLength bytes by the preceding branch, so 32-len(b) is in [0,32]",
+	"libs/common.(*Hash).SetBytes/index:(32 - len(φ:b))":                "b is truncated to at most HashLength bytes by the preceding branch, so 32-len(b) is in [0,32]",
 	"types.(EvidenceList).Hash/index:((len(evl) + 1) / 2)":              "midpoint of a slice; reached only in the default case of the switch on len (len >= 2)",
 	"types.(Txs).Hash/index:((len(txs) + 1) / 2)":                       "midpoint of a slice; reached only in the default case of the switch on len (len >= 2)",
 }
@@ -99,7 +99,7 @@ func C16(p *ir.Program, r *report.R) {
 	sinks, fns := ir.AnalyzeTaint(p, ir.TaintConfig{Scope: scope, Entries: entries, TaintedFields: tf, Impls: impls, NonNilFields: nonNilF, CallSites: callSites,
 		NonNilFacts: []string{"types.Block.HashesTo($,*)", "types.Block.WellFormed($)"},
 		// txs[*] / evl[*]: elements of the lists of a block that passed Block.WellFormed (obligations wellformed/* below)
-		NonNilOperands: []string{"msg.Part", "msg.Proposal", "msg.Vote", "txs[*]", "evl[*]"},
+		NonNilOperands:   []string{"msg.Part", "msg.Proposal", "msg.Vote", "txs[*]", "evl[*]"},
 		UntaintedResults: []string{"consensus.BlockChainApp.*", "consensus.EvidencePool.*", "log.Logger.*"}})
 	// ---- obligations the analysis relies on ------------------------------------------------
 	// (1) the reactor dereferences the top-level pointers of a message before it is queued: a nil
